@@ -11,7 +11,8 @@ const OrdinalsPrefix = "ord"
 
 // Inscribe adds an output to the transaction with an inscription.
 func (tx *Tx) Inscribe(ia *bscript.InscriptionArgs) error {
-	s := *ia.LockingScriptPrefix // deep copy
+	// deep copy, so that appending never writes into the caller's prefix
+	s := append(make(bscript.Script, 0, len(*ia.LockingScriptPrefix)), *ia.LockingScriptPrefix...)
 
 	// add Inscription data
 	// (Example: 	OP_FALSE
